@@ -82,6 +82,30 @@ def client_negotiation_stims(seed, tier):
     return out
 
 
+def limit_stims(seed, tier):
+    """C06 at call level: max_{de,en}coding_message_size configured on the generated client / server."""
+    rnd = random.Random(seed + 6)
+    out = []
+    n = 1200 if tier == 'thorough' else 240
+    for i in range(n):
+        shape = ['unary', 'cstream', 'sstream', 'bidi'][i % 4]
+        L = rnd.choice([0, 1, 5, 64])
+        side, key = [('server', 'max_dec'), ('server', 'max_enc'), ('client', 'max_dec'), ('client', 'max_enc')][(i // 4) % 4]
+        def msgs(k):
+            return [[rnd.randrange(256)] * rnd.choice([max(L - 1, 0), L, L + 1, L + 7, 0]) for _ in range(k)]
+        nreq = 1 if shape in ('unary', 'sstream') else rnd.randint(1, 4)
+        nresp = 1 if shape in ('unary', 'cstream') else rnd.randint(0, 4)
+        h2 = rnd.random() < 0.4
+        st = {'mode': 'client', 'class': ('h2_' if h2 else 'inproc_') + side + '_' + key, 'transport': 'h2' if h2 else 'inproc',
+              'shim': {'cap': 65536, 'rq': rnd.choice([3, 64, 65536]), 'wq': rnd.choice([5, 65536]), 'pend': 0}, 'shape': shape,
+              'server': {'send': [], 'accept': [], 'max_dec': -1, 'max_enc': -1}, 'client': {'send': '', 'accept': [], 'max_dec': -1, 'max_enc': -1},
+              'req': {'meta': [], 'msgs': msgs(nreq)},
+              'script': {'init_meta': [], 'msgs': msgs(nresp), 'end': {'ok': True}, 'fail_before': False, 'no_compress': False}}
+        st[side][key] = L
+        out.append(st)
+    return out
+
+
 def check(prop, tier, seed):
     t0 = time.time()
     core.build_harness()
@@ -95,6 +119,8 @@ def check(prop, tier, seed):
         fams.append(('client_negotiation', client_negotiation_stims(seed, tier)))
     if prop == 'C08':
         fams.append(('calls2', simple.gen('call', seed + 77, tier, tag)))
+    if prop == 'C06':
+        fams = [('call_limits', limit_stims(seed, tier))]
     if prop == 'C05':
         # the frame-level clauses of C05 (flag without negotiated encoding => INTERNAL) on the decoder itself,
         # driven by the behaviours of the decoder Mechanism model (includes empty and short flagged frames)
